@@ -123,15 +123,15 @@ func rtBuild(c Sx, caching bool) *rtRouter {
 		}
 	}
 	register(func() {
-	for i, d := range xs[2].Lst() {
-		ok, ms := rr.addDef(i, d)
-		if ok {
-			rr.meths = append(rr.meths, ms)
-			rr.regs = append(rr.regs, A("ok"))
-		} else {
-			rr.regs = append(rr.regs, A("panic"))
+		for i, d := range xs[2].Lst() {
+			ok, ms := rr.addDef(i, d)
+			if ok {
+				rr.meths = append(rr.meths, ms)
+				rr.regs = append(rr.regs, A("ok"))
+			} else {
+				rr.regs = append(rr.regs, A("panic"))
+			}
 		}
-	}
 	})
 	rr.regs = append(rr.regs, rr.meths...)
 	if lateOpt { // options may only be applied while the router has no routes
